@@ -536,7 +536,12 @@ def check_polygons(case):
     out = []
     P = plt()
     P.close("all")
-    ret = SP("KKEEGGSSPP").show_phaseDiagramPlot(getFig=True)
+    lim = case.get("limits")
+    if lim:
+        # a zoomed diagram: the regions are drawn in data coordinates, so every marker still lies in the polygon of its region
+        ret = SP("KKEEGGSSPP").show_phaseDiagramPlot(getFig=True, xLim=lim[0], yLim=lim[1])
+    else:
+        ret = SP("KKEEGGSSPP").show_phaseDiagramPlot(getFig=True)
     fig = fig_of(ret) or P.gcf()
     d = inspect(fig)
     P.close("all")
@@ -699,6 +704,13 @@ def run(tier, seed, t0):
         for fmt in ("png", "pdf", "svg"):
             cases.append({"kind": "config", "ep": ep, "cfg": dict(dflt, label=None if "multiple" in ep else ""), "fmt": fmt,
                           "write": fmt != "png" or tier == "thorough"})
+    # axis limits other than 1 and 0.5 (second decimals, values above 1, different on the two axes) on every entry point, and the
+    # region polygons of zoomed diagrams
+    for ep in eps:
+        for xl, yl in ((0.9, 0.8), (0.68, 0.47), (0.99, 0.55), (1.08, 1.2), (0.75, 0.96)):
+            cases.append({"kind": "config", "ep": ep, "cfg": dict(dflt, label=None if "multiple" in ep else "", xLim=xl, yLim=yl)})
+    for lim in ((0.9, 0.8), (0.8, 0.9), (0.7, 0.95), (0.95, 0.7), (1.2, 1.1)):
+        cases.append({"kind": "polygons", "lo": 1, "hi": 16 if tier == "quick" else 30, "limits": list(lim)})
     # labelled multi-sequence plots whose markers share an x-coordinate
     for ep in eps:
         if "multiple" in ep:
@@ -727,7 +739,7 @@ def run(tier, seed, t0):
              "single / multiple / multiple2) x the full product label{'', 'x', long} x title{default,custom} x legend x xLim{1,.5} x "
              "yLim{1,.5} x font{10,6} (96 configurations) on three sequences: markers at the true coordinates, requested title, axis "
              "labels, limits, point labels and font, a figure returned when getFig; every entry point x {png,pdf,svg} written to a "
-             "real temp file; labelled multi-sequence plots of sequences whose markers share an x-coordinate; every entry point's save in {png,pdf,svg,ps} followed, with nothing closed by the caller, by three further plots (each returned figure closed by the caller, then the save repeated) and a linear profile of another sequence (each figure must show exactly its own markers / bars). (3) linear plots: show/save_linear{NCPR,FCR,Sigma,Hydropathy} x windows: N bars centred on 1..N with "
+             "real temp file; five further pairs of axis limits (second decimals, above 1, unequal) on every entry point and the region polygons of five zoomed diagrams x every composition to 16/30; labelled multi-sequence plots of sequences whose markers share an x-coordinate; every entry point's save in {png,pdf,svg,ps} followed, with nothing closed by the caller, by three further plots (each returned figure closed by the caller, then the save repeated) and a linear profile of another sequence (each figure must show exactly its own markers / bars). (3) linear plots: show/save_linear{NCPR,FCR,Sigma,Hydropathy} x windows: N bars centred on 1..N with "
              "the heights of get_linear_*. save_* figures are inspected at the moment savefig is called. non-trivial = all but "
              "single-charge-type region cases" % (NK, NP, HN, len(ep_sel)),
         bounds={"region_K": NK, "entry_points": len(ep_sel), "configurations": len(cfgs), "linear_sequences": len(lin_seqs)},
